@@ -517,12 +517,28 @@ func (c *Ctx) constMapUpdates(pkg string, fns []string) map[string]map[string]st
 		if fn == nil {
 			continue
 		}
+		// the function and the helpers of its package it calls (three levels), except the statement/expression checkers and generators
 		scan := []*ssa.Function{fn}
-		instrsOf(fn, func(in ssa.Instruction) {
-			if sc := staticCallee(in); sc != nil && c.isRepoFn(sc) && sc.Pkg == fn.Pkg && sc != fn {
-				scan = append(scan, sc)
+		seenFn := map[*ssa.Function]bool{fn: true}
+		frontier := []*ssa.Function{fn}
+		for depth := 0; depth < 3; depth++ {
+			var next []*ssa.Function
+			for _, f := range frontier {
+				instrsOf(f, func(in ssa.Instruction) {
+					sc := staticCallee(in)
+					if sc == nil || !c.isRepoFn(sc) || sc.Pkg != fn.Pkg || seenFn[sc] {
+						return
+					}
+					if depth > 0 && (strings.HasPrefix(sc.Name(), "check") || strings.HasPrefix(sc.Name(), "generate") || strings.HasPrefix(sc.Name(), "execute") || strings.HasPrefix(sc.Name(), "match")) {
+						return
+					}
+					seenFn[sc] = true
+					scan = append(scan, sc)
+					next = append(next, sc)
+				})
 			}
-		})
+			frontier = next
+		}
 		for _, f := range scan {
 			instrsOf(f, func(in ssa.Instruction) {
 				mu, ok := in.(*ssa.MapUpdate)
